@@ -1,2 +1,251 @@
 #![allow(warnings, clippy::all, clippy::pedantic, clippy::nursery)]
+//@ module: backend::decrypt
 use super::*;
+use crate::error::verif_harness as vh;
+use crate::error::verif_harness::{ModelKey, RecBe, is_model_ciphertext_of, MODEL_OVERHEAD};
+use std::sync::atomic::Ordering::SeqCst;
+
+static EMPTY: [u8; 0] = [];
+
+fn model_backend(serve: &'static [u8]) -> (Arc<RecBe>, DecryptBackend<ModelKey>) {
+    let rec = Arc::new(RecBe::new(serve));
+    let mut be = DecryptBackend::new(rec.clone() as Arc<dyn WriteBackend>, ModelKey);
+    be.set_extra_verify(kani::any());
+    (rec, be)
+}
+/// compression mode is concrete per harness instance (container lengths stay concrete); the level is symbolic
+fn level<const ZSTD: bool>() -> Option<i32> { if ZSTD { let l: i32 = kani::any(); kani::assume((-7..=22).contains(&l)); Some(l) } else { None } }
+
+/// blob framing: process_data -> (store) -> read_encrypted_from_partial
+fn blob_roundtrip<const N: usize, const ZSTD: bool>() {
+    let (rec, mut be) = model_backend(&EMPTY);
+    be.set_zstd(level::<ZSTD>());
+    let data: [u8; N] = kani::any();
+    let r = be.process_data(&data);
+    match r {
+        Ok((enc, len, ul)) => {
+            assert!(len as usize == N);
+            // C04-A1: what would be stored is an output of key.encrypt_data (no plaintext path)
+            if be.zstd.is_none() { assert!(is_model_ciphertext_of(&enc, &data)); assert!(ul.is_none()); }
+            else { assert!(ul.map(|x| x.get() as usize) == Some(N)); assert!(enc.len() == N + 1 + MODEL_OVERHEAD); }
+            // C01-K2: reading back with the recorded lengths returns the input
+            let back = be.read_encrypted_from_partial(&enc, ul);
+            match back {
+                Ok(b) => {
+                    assert!(b.len() == N);
+                    let mut i = 0;
+                    while i < N { assert!(b[i] == data[i]); i += 1; }
+                    kani::cover!(be.zstd.is_some(), "compressed blob read back");
+                    kani::cover!(be.zstd.is_none(), "uncompressed blob read back");
+                    std::mem::forget(b);
+                }
+                Err(e) => { std::mem::forget(e); assert!(false, "stored blob does not read back"); }
+            }
+            // a wrong recorded uncompressed length is refused, never silently accepted
+            if let Some(u) = ul {
+                let wrong = std::num::NonZeroU32::new(u.get() + 1);
+                let r2 = be.read_encrypted_from_partial(&enc, wrong);
+                assert!(r2.is_err());
+                std::mem::forget(r2);
+            }
+            std::mem::forget(enc);
+        }
+        Err(e) => { std::mem::forget(e); assert!(false, "process_data failed on a model key that never fails"); }
+    }
+    assert!(rec.n_write.load(SeqCst) == 0);
+    std::mem::forget(be); std::mem::forget(rec);
+}
+
+//@ harness: c01_blob_framing_roundtrip_3
+//@ prop: C01 C04
+//@ tier: quick
+//@ timeout: 900
+//@ mem: 10
+//@ kernel: DecryptBackend::{process_data, encrypt_data, very_data, set_zstd, set_extra_verify}, DecryptReadBackend::read_encrypted_from_partial
+//@ bound: blob of 3 symbolic bytes; compression off; extra_verify symbolic; nonce byte symbolic; unwind 44
+//@ oracle: process_data returns (ciphertext, plain length, Some(plain length) iff compressed); uncompressed ciphertext is exactly key.encrypt_data(plaintext) under the model; read_encrypted_from_partial with the recorded length returns the input; a wrong recorded length is an error
+//@ assume: blobs are non-empty (both chunkers never yield an empty chunk - asserted by C06 harnesses; a serialized tree is never empty)
+//@ stub: CryptoKey = ModelKey (ideal AEAD model, DESIGN 1.5); zstd::stream::{encode_all,decode_all} -> invertible framing 0xFD||data; Backtrace::capture, fmt::format
+#[kani::proof]
+#[kani::unwind(44)]
+#[kani::stub(std::backtrace::Backtrace::capture, crate::error::verif_harness::stub_backtrace_capture)]
+#[kani::stub(alloc::fmt::format, crate::error::verif_harness::stub_format)]
+#[kani::stub(zstd::stream::encode_all, crate::error::verif_harness::stub_encode_all)]
+#[kani::stub(zstd::stream::decode_all, crate::error::verif_harness::stub_decode_all)]
+pub(crate) fn c01_blob_framing_roundtrip_3() { blob_roundtrip::<3, false>(); }
+
+//@ harness: c01_blob_framing_roundtrip_3_zstd
+//@ prop: C01 C04
+//@ tier: quick
+//@ timeout: 900
+//@ mem: 10
+//@ kernel: as c01_blob_framing_roundtrip_3, compression branch
+//@ bound: blob of 3 symbolic bytes; compression on with any level -7..=22; extra_verify symbolic; nonce byte symbolic; unwind 44
+//@ oracle: as c01_blob_framing_roundtrip_3
+//@ assume: blobs are non-empty
+//@ stub: as c01_blob_framing_roundtrip_3
+#[kani::proof]
+#[kani::unwind(44)]
+#[kani::stub(std::backtrace::Backtrace::capture, crate::error::verif_harness::stub_backtrace_capture)]
+#[kani::stub(alloc::fmt::format, crate::error::verif_harness::stub_format)]
+#[kani::stub(zstd::stream::encode_all, crate::error::verif_harness::stub_encode_all)]
+#[kani::stub(zstd::stream::decode_all, crate::error::verif_harness::stub_decode_all)]
+pub(crate) fn c01_blob_framing_roundtrip_3_zstd() { blob_roundtrip::<3, true>(); }
+
+//@ harness: c01_blob_framing_roundtrip_1
+//@ prop: C01 C04
+//@ tier: thorough
+//@ timeout: 900
+//@ mem: 10
+//@ kernel: as c01_blob_framing_roundtrip_3
+//@ bound: blob of 1 symbolic byte (smallest non-empty blob); otherwise as c01_blob_framing_roundtrip_3
+//@ oracle: as c01_blob_framing_roundtrip_3
+//@ assume: blobs are non-empty
+//@ stub: as c01_blob_framing_roundtrip_3
+#[kani::proof]
+#[kani::unwind(44)]
+#[kani::stub(std::backtrace::Backtrace::capture, crate::error::verif_harness::stub_backtrace_capture)]
+#[kani::stub(alloc::fmt::format, crate::error::verif_harness::stub_format)]
+#[kani::stub(zstd::stream::encode_all, crate::error::verif_harness::stub_encode_all)]
+#[kani::stub(zstd::stream::decode_all, crate::error::verif_harness::stub_decode_all)]
+pub(crate) fn c01_blob_framing_roundtrip_1() { blob_roundtrip::<1, true>(); }
+
+//@ harness: c01_file_framing_roundtrip
+//@ prop: C01 C04
+//@ tier: quick
+//@ timeout: 900
+//@ mem: 10
+//@ kernel: DecryptBackend::{hash_write_full, encrypt_file, very_file, decrypt_file}, DecryptWriteBackend::hash_write_full_uncompressed, hash
+//@ bound: repository file payload of 3 bytes, first byte '{' or '[' (JSON), others symbolic; compression off; extra_verify symbolic; file type symbolic (not config); unwind 44
+//@ oracle: exactly one write reaches storage; the id returned == hash(bytes written) and equals the id passed to write_bytes; the bytes written are key.encrypt_data(..) output (model ciphertext of the payload, or of 0x02||compressed payload); decrypt_file(bytes written) == payload
+//@ stub: ModelKey; zstd::stream::{copy_encode,decode_all} -> 0xFD framing; crypto::hasher::hash -> checksum model H'; Backtrace::capture; fmt::format
+#[kani::proof]
+#[kani::unwind(44)]
+#[kani::stub(std::backtrace::Backtrace::capture, crate::error::verif_harness::stub_backtrace_capture)]
+#[kani::stub(alloc::fmt::format, crate::error::verif_harness::stub_format)]
+#[kani::stub(zstd::stream::copy_encode, crate::error::verif_harness::stub_copy_encode)]
+#[kani::stub(zstd::stream::decode_all, crate::error::verif_harness::stub_decode_all)]
+#[kani::stub(crate::crypto::hasher::hash, crate::error::verif_harness::stub_hash)]
+pub(crate) fn c01_file_framing_roundtrip() { file_roundtrip::<false>(); }
+
+//@ harness: c01_file_framing_roundtrip_zstd
+//@ prop: C01 C04
+//@ tier: quick
+//@ timeout: 900
+//@ mem: 10
+//@ kernel: as c01_file_framing_roundtrip, compression branch (0x02 || compressed payload)
+//@ bound: as c01_file_framing_roundtrip with compression on, any level -7..=22
+//@ oracle: as c01_file_framing_roundtrip
+//@ stub: as c01_file_framing_roundtrip
+#[kani::proof]
+#[kani::unwind(44)]
+#[kani::stub(std::backtrace::Backtrace::capture, crate::error::verif_harness::stub_backtrace_capture)]
+#[kani::stub(alloc::fmt::format, crate::error::verif_harness::stub_format)]
+#[kani::stub(zstd::stream::copy_encode, crate::error::verif_harness::stub_copy_encode)]
+#[kani::stub(zstd::stream::decode_all, crate::error::verif_harness::stub_decode_all)]
+#[kani::stub(crate::crypto::hasher::hash, crate::error::verif_harness::stub_hash)]
+pub(crate) fn c01_file_framing_roundtrip_zstd() { file_roundtrip::<true>(); }
+
+fn file_roundtrip<const ZSTD: bool>() {
+    let (rec, mut be) = model_backend(&EMPTY);
+    be.set_zstd(level::<ZSTD>());
+    let mut data: [u8; 3] = kani::any();
+    data[0] = if kani::any() { b'{' } else { b'[' };
+    let tpe = vh::any_tpe();
+    kani::assume(tpe != FileType::Config);
+    let uncompressed_path: bool = kani::any();
+    let r = if uncompressed_path { be.hash_write_full_uncompressed(tpe, &data) } else { be.hash_write_full(tpe, &data) };
+    match r {
+        Ok(id) => {
+            assert!(rec.n_write.load(SeqCst) == 1);
+            assert!(rec.tpe.load(SeqCst) == vh::tpe_u8(tpe));
+            let written = rec.written();
+            assert!(id == crate::crypto::hasher::hash(&written));
+            assert!(rec.written_id() == id);
+            let compressed = be.zstd.is_some() && !uncompressed_path;
+            if compressed {
+                assert!(written.len() == 3 + 2 + MODEL_OVERHEAD);
+            } else {
+                assert!(is_model_ciphertext_of(&written, &data));
+            }
+            let back = be.decrypt_file(&written);
+            match back {
+                Ok(b) => { assert!(b.len() == 3 && b[0] == data[0] && b[1] == data[1] && b[2] == data[2]); kani::cover!(compressed, "compressed file read back"); kani::cover!(!compressed, "plain file read back"); std::mem::forget(b); }
+                Err(e) => { std::mem::forget(e); assert!(false, "written file does not decrypt"); }
+            }
+            std::mem::forget(written);
+        }
+        Err(e) => { std::mem::forget(e); assert!(false, "write failed on a backend that never fails"); }
+    }
+    std::mem::forget(be); std::mem::forget(rec);
+}
+
+
+//@ harness: c04_tampered_blob_is_rejected
+//@ prop: C04 C05
+//@ tier: quick
+//@ timeout: 900
+//@ mem: 10
+//@ kernel: DecryptReadBackend::{read_encrypted_from_partial, read_encrypted_partial}, DecryptBackend::{decrypt, decrypt_file, read_encrypted_full}
+//@ bound: a stored blob = model ciphertext of 3 symbolic bytes (uncompressed); one symbolic fault: flip any one bit of any one byte, truncate to any shorter length, or extend by one byte; recorded uncompressed length as written; unwind 44
+//@ oracle: every read path returns Err or exactly the original plaintext - never different content, never raw bytes (no fallback); truncation below nonce+tag is an error, not a panic
+//@ stub: ModelKey (ideal AEAD: the model's tag is sensitive to every single-byte change of nonce/ciphertext/tag); zstd -> 0xFD framing; Backtrace::capture; fmt::format
+//@ outside: cryptographic strength of Poly1305-AES (a solver would construct forgeries for a known key; not a defect), nonce uniqueness (OS RNG)
+#[kani::proof]
+#[kani::unwind(44)]
+#[kani::stub(std::backtrace::Backtrace::capture, crate::error::verif_harness::stub_backtrace_capture)]
+#[kani::stub(alloc::fmt::format, crate::error::verif_harness::stub_format)]
+#[kani::stub(zstd::stream::encode_all, crate::error::verif_harness::stub_encode_all)]
+#[kani::stub(zstd::stream::decode_all, crate::error::verif_harness::stub_decode_all)]
+pub(crate) fn c04_tampered_blob_is_rejected() { tamper_check::<false>(); }
+
+//@ harness: c04_tampered_blob_is_rejected_zstd
+//@ prop: C04 C05
+//@ tier: quick
+//@ timeout: 900
+//@ mem: 10
+//@ kernel: as c04_tampered_blob_is_rejected, compressed blob
+//@ bound: as c04_tampered_blob_is_rejected with compression on
+//@ oracle: as c04_tampered_blob_is_rejected
+//@ stub: as c04_tampered_blob_is_rejected
+#[kani::proof]
+#[kani::unwind(44)]
+#[kani::stub(std::backtrace::Backtrace::capture, crate::error::verif_harness::stub_backtrace_capture)]
+#[kani::stub(alloc::fmt::format, crate::error::verif_harness::stub_format)]
+#[kani::stub(zstd::stream::encode_all, crate::error::verif_harness::stub_encode_all)]
+#[kani::stub(zstd::stream::decode_all, crate::error::verif_harness::stub_decode_all)]
+pub(crate) fn c04_tampered_blob_is_rejected_zstd() { tamper_check::<true>(); }
+
+fn tamper_check<const ZSTD: bool>() {
+    let (rec, mut be) = model_backend(&EMPTY);
+    be.set_extra_verify(false);
+    be.set_zstd(level::<ZSTD>());
+    let data: [u8; 3] = kani::any();
+    let (enc, _len, ul) = be.process_data(&data).unwrap();
+    let n = enc.len();
+    // one fault
+    let mut bad: Vec<u8> = Vec::with_capacity(48);
+    let kind: u8 = kani::any();
+    kani::assume(kind < 3);
+    let pos: usize = kani::any();
+    kani::assume(pos < n);
+    let bit: u8 = kani::any();
+    kani::assume(bit < 8);
+    let mut i = 0;
+    while i < n {
+        if kind == 1 && i >= pos { break; } // truncate to pos bytes
+        bad.push(if kind == 0 && i == pos { enc[i] ^ (1 << bit) } else { enc[i] });
+        i += 1;
+    }
+    if kind == 2 { bad.push(kani::any()); }
+    let r = be.read_encrypted_from_partial(&bad, ul);
+    match r {
+        Ok(b) => {
+            // only acceptable if the content is still exactly the original
+            assert!(b.len() == 3 && b[0] == data[0] && b[1] == data[1] && b[2] == data[2]);
+            std::mem::forget(b);
+        }
+        Err(e) => { kani::cover!(kind == 0, "bit flip rejected"); kani::cover!(kind == 1, "truncation rejected"); kani::cover!(kind == 2, "extension rejected"); std::mem::forget(e); }
+    }
+    std::mem::forget(bad); std::mem::forget(enc); std::mem::forget(be); std::mem::forget(rec);
+}
